@@ -107,8 +107,8 @@ impl CaoLangTable {
     pub fn pop(&mut self) -> Result<Value, ExecutionErrorPayload> {
         match self.keys.pop() {
             Some(key) => {
-                let res = self.get(&key).copied().unwrap_or(Value::Nil);
-                self.remove(key)?;
+                // the key is already taken out of `keys`, remove the entry from the map as well
+                let res = self.map.remove(&key).unwrap_or(Value::Nil);
                 Ok(res)
             }
             None => Ok(Value::Nil),
